@@ -1,7 +1,207 @@
 package main
 
-func lindell17Count(tier string) int { return 0 }
-func lindell17Has(policy string) bool { return false }
+import (
+	"fmt"
+	"math/big"
+	"os"
+	"strings"
+
+	"github.com/bronlabs/bron-crypto/pkg/base/curves/k256"
+	"github.com/bronlabs/bron-crypto/pkg/mpc/sharing"
+
+	ddkls "verif/harness/internal/drive/dkls23"
+	"verif/harness/internal/drive/keys"
+	dl17 "verif/harness/internal/drive/lindell17"
+	"verif/harness/internal/vh"
+)
+
+// stored Lindell17 key material (k256): policy texts with concrete IDs
+var l17Policies = []string{
+	"T:2:1,2,3",
+	"N:1|2|3", // 2-of-3 as CNF: non-ideal, two share components per holder
+	"T:2:1099511627781,9223372036854775809",
+}
+
+func l17Available() []string {
+	var out []string
+	for _, p := range l17Policies {
+		if _, err := os.Stat(keys.L17Path("k256", p)); err == nil {
+			out = append(out, p)
+		}
+	}
+	return out
+}
+
+// genL17Keys generates the missing corpus files (slow; thorough tier or C01_GENKEYS=1 only).
+func genL17Keys() {
+	for i, p := range l17Policies {
+		if _, err := os.Stat(keys.L17Path("k256", p)); err == nil {
+			continue
+		}
+		fmt.Fprintln(os.Stderr, "generating Lindell17 key material for", p)
+		if err := keys.GenerateL17(k256.NewCurve(), "k256", p, vh.NewRng(1, "C01", "l17keys", i)); err != nil {
+			fmt.Fprintln(os.Stderr, "  failed:", err)
+		}
+	}
+}
+
+func lindell17Count(tier string) int {
+	if len(l17Available()) == 0 {
+		return 0
+	}
+	if tier == "thorough" {
+		return 36
+	}
+	return 4
+}
+
+func lindell17Has(policy string) bool { return true }
+
+// lindell17Cases replaces the generic generator for this protocol (stored policies only).
+func lindell17Cases(seed int64, count int) []kase {
+	avail := l17Available()
+	var out []kase
+	for i := 0; i < count && len(avail) > 0; i++ {
+		rng := vh.NewRng(seed, "C01", "gen/l17", i)
+		ptxt := avail[i%len(avail)]
+		p, _ := keys.ParsePolicy(ptxt)
+		q := pickQuorum(p, rng, true, 2, 2)
+		if q == nil {
+			continue
+		}
+		comp := "fischlin"
+		if i%3 == 2 {
+			comp = "randfischlin"
+		}
+		sess := "seeded"
+		if i%4 == 3 {
+			sess = "real"
+		}
+		out = append(out, kase{Proto: "lindell17", Variant: "k256,sha256," + comp, Policy: ptxt, Quorum: q, Msg: msgSpec(i, rng, true), Session: sess, Seed: seed*1000 + int64(i)})
+	}
+	return out
+}
+
 func evalL17(idx int, k kase, o *outcome) {
-	o.propKey, o.propDetail = "lindell17-not-wired", "driver missing"
+	v := strings.Split(k.Variant, ",")
+	if len(v) != 3 {
+		o.propKey, o.propDetail = "bad-case", k.Variant
+		return
+	}
+	res := dl17.RunFull(dl17.Config{Common: k.common(), Policy: k.Policy, Curve: v[0], Hash: v[1], Compiler: v[2]})
+	key := "lindell17-" + v[0]
+	if res.SetupErr != "" {
+		o.propKey, o.propDetail = key+"-setup-failed", res.SetupErr
+		return
+	}
+	o.nontrivial = true
+	msg := k.message()
+	fail := func(what, detail string) {
+		if o.propKey == "" {
+			o.propKey, o.propDetail = key+"-"+what, detail
+		}
+	}
+	if d := verdictsOK(res.Trace, []sharing.ID{res.Primary, res.Secondary}, false); d != "" {
+		fail("honest-run-error", d)
+	}
+	if res.Sig == nil {
+		fail("no-signature", "the primary obtained no signature")
+	} else {
+		if res.LibOK != "ok" {
+			fail("library-verifier-rejects", res.LibOK)
+		}
+		hf, _ := ddkls.HashFunc(v[1])
+		h := hf()
+		h.Write(msg)
+		if !secpECDSAVerify(pt{x: res.PKX, y: res.PKY}, h.Sum(nil), res.Sig.R, res.Sig.S) {
+			fail("independent-verifier-rejects", res.Trace.Outputs[res.Primary])
+		}
+	}
+	o.sigText = res.Trace.Outputs[res.Primary]
+
+	// ---- model tie
+	if res.Sig == nil || res.N == nil || res.X2 == nil || res.Zeta2 == nil || len(res.X1) == 0 || len(res.X1) != len(res.Lam) {
+		return
+	}
+	q := res.Order
+	t1 := res.Trace.Tapes[res.Primary]
+	t2 := res.Trace.Tapes[res.Secondary]
+	r1 := readsTagged(t1, "r1")
+	r2 := readsTagged(t2, "r2")
+	if len(r1) < 1 || len(r2) < 1 || t1.Reads[r1[0]].N != 48 || t2.Reads[r2[0]].N != 48 {
+		o.corr = append(o.corr, corrFail{key + "-tape-layout", "first reads of round 1 (primary) / round 2 (secondary) are not 48 bytes"})
+		return
+	}
+	k1t, k2t := t1.Slice(r1[0]), t2.Slice(r2[0])
+	kk := new(big.Int).Mul(leMod(k1t, q), leMod(k2t, q))
+	kk.Mod(kk, q)
+	x, y := res.BaseXY(kk)
+	if x == nil {
+		return
+	}
+	rx := new(big.Int).Mod(x, q)
+	odd := y.Bit(0) == 1
+	over := x.Cmp(q) >= 0
+	rng := vh.NewRng(k.Seed, "C01", "model", idx)
+	rho := rng.BigBelow(new(big.Int).Mul(q, q))
+	hf, _ := ddkls.HashFunc(v[1])
+	h := hf()
+	h.Write(msg)
+	m := bits2int256(h.Sum(nil))
+	m.Mod(m, q)
+	line := fmt.Sprintf("P %d %s %s %s %s %s %s %s %s %s %s %s %s %s %s", idx, vh.ZHex(q), vh.ZHex(res.N), vh.Hex(k1t), vh.Hex(k2t),
+		zlist(res.X1), zlist(res.Lam), vh.ZHex(res.X2), vh.ZHex(res.Zeta2), vh.ZHex(rho), vh.ZHex(m), vh.ZHex(res.Secret), vh.ZHex(rx), bitStr(odd), bitStr(over))
+	sig := res.Sig
+	c3 := res.C3
+	N := res.N
+	o.model = append(o.model, modelCheck{line: line, cmp: func(out []string) (string, string) {
+		// P id some r s b0 b1 k c3 | P id none k c3
+		if len(out) < 5 || out[0] != "P" {
+			return key + "-model-output", "unparsable model output"
+		}
+		if out[2] != "some" || len(out) != 9 {
+			return key + "-model-refuses", "the model's run returns an error, the implementation a signature"
+		}
+		mr, ms := vh.UnZHex(out[3]), vh.UnZHex(out[4])
+		mv := 0
+		if out[5] == "1" {
+			mv++
+		}
+		if out[6] == "1" {
+			mv += 2
+		}
+		if vh.UnZHex(out[7]).Cmp(kk) != 0 {
+			return key + "-nonce-product", "model and harness disagree on k1·k2 from the tapes"
+		}
+		if mr.Cmp(sig.R) != 0 {
+			return key + "-r", fmt.Sprintf("r: impl %s, model xc((k1 k2)·G) %s", vh.ZHex(sig.R), vh.ZHex(mr))
+		}
+		if ms.Cmp(sig.S) != 0 {
+			if new(big.Int).Sub(q, ms).Cmp(sig.S) == 0 {
+				return key + "-s-not-normalised", fmt.Sprintf("s: impl %s is the negation of the model's normalised s", vh.ZHex(sig.S))
+			}
+			return key + "-s", fmt.Sprintf("s: impl %s model %s", vh.ZHex(sig.S), vh.ZHex(ms))
+		}
+		if sig.V != mv {
+			return key + "-recovery-id", fmt.Sprintf("v: impl %d model %d", sig.V, mv)
+		}
+		if c3 != nil {
+			// the real plaintext: no wrap (0 <= c3 < N/2) and the same residue mod q as the model's
+			// integer (rho is not visible on the tape: only rho·q differs)
+			if c3.Sign() < 0 || new(big.Int).Lsh(c3, 1).Cmp(N) >= 0 {
+				return key + "-c3-wraps", fmt.Sprintf("decrypted c3 = %s is not in [0, N/2)", vh.ZHex(c3))
+			}
+			mc := vh.UnZHex(out[8])
+			if new(big.Int).Mod(c3, q).Cmp(new(big.Int).Mod(mc, q)) != 0 {
+				return key + "-c3-residue", "decrypted c3 and the model's integer differ mod q"
+			}
+			bound := new(big.Int).Mul(q, new(big.Int).Mul(q, q))
+			bound.Add(bound, new(big.Int).Mul(big.NewInt(int64(3*len(res.X1))), new(big.Int).Mul(q, q)))
+			bound.Add(bound, new(big.Int).Lsh(q, 1))
+			if c3.Cmp(bound) >= 0 {
+				return key + "-c3-bound", "decrypted c3 exceeds q^3 + 3dq^2 + 2q"
+			}
+		}
+		return "", ""
+	}})
 }
